@@ -54,8 +54,10 @@ func (c *PairingController) Handle(cont util.Container) (util.Container, error) 
 	case PairingMethodAdd:
 		err := c.database.SaveEntity(entity)
 		if err != nil {
-			log.Info.Panic(err)
-			return nil, err
+			// e.g. the identifier is too long to be stored
+			log.Info.Println(err)
+			out.SetByte(TagErrCode, ErrCodeUnknown.Byte())
+			return out, nil
 		}
 	default:
 		return nil, fmt.Errorf("Invalid pairing method type %v", method)
